@@ -21,7 +21,7 @@ package bufmodule
 //@ trusted pure interface Digest
 //@ trusted pure interface bufcas.Digest
 //@ trusted func getFilesDigestForB5Digest(ctx, bucketWithStorageMatcherApplied) (r, err)
-//@   modifies heap, ghost.fail, ghost.wfail, ghost.sinkPaths
+//@   modifies heap, ghost.fail, ghost.wfail, ghost.sinkPaths, ghost.sinkBuckets
 //@   ensures err == nil ==> r != nil
 //@ trusted func bufcas.NewDigestForContent(reader, options) (r, err)
 //@   modifies heap
@@ -32,7 +32,7 @@ package bufmodule
 // dependency digests (all of type b5), joined by newlines. Checked at the point the content is handed to the hash.
 //@ func getB5DigestForBucketAndDepDigests(ctx, bucketWithStorageMatcherApplied, depDigests) (r, err)
 //@   property C08 C02
-//@   modifies heap, ghost.fail, ghost.wfail, ghost.sinkPaths
+//@   modifies heap, ghost.fail, ghost.wfail, ghost.sinkPaths, ghost.sinkBuckets
 //@   closure 0 ensures err == nil ==> digest.Type() == DigestTypeB5 && r == digest.String()
 //@   assert before "digestOfDigests, err := bufcas.NewDigestForContent" files-digest-first: len(digestStrings) == 1 + len(depDigests) && digestStrings[0] == filesDigest.String()
 //@   assert before "digestOfDigests, err := bufcas.NewDigestForContent" deps-sorted: forall a int, b int :: 1 <= a && a < b && b < len(digestStrings) ==> digestStrings[a] <= digestStrings[b]
